@@ -17,7 +17,7 @@ HALF = MAX // 2
 
 TRUSTED = ["hand model lean/AwsVerif/Model/ByteBuf.lean (tied to byte_buf.c by this correspondence run only)",
            "gen/bytebuf_tables.py (s_tolower_table / s_hex_to_num_table re-read from byte_buf.c on every run)",
-           "gen/bytebuf_fns.py + gen/cfun.py + gen/math_gen.py (aws_nospec_mask, aws_is*, six guard expressions, checked arithmetic "
+           "gen/bytebuf_fns.py + gen/cfun.py + gen/math_gen.py (aws_nospec_mask, aws_is*, six guard expressions, aws_byte_buf_is_valid / aws_byte_cursor_is_valid, checked arithmetic "
            "re-translated from the C source on every run; the empty asm barrier of aws_nospec_mask is dropped)",
            "harness: fread/feof of file.c wrapped at link time to serve a simulated file (size, data, short-read schedule)",
            "harness/bytebuf.c: numbering allocator, 0xCD fill for never-written bytes, canary-guarded pool"]
@@ -1209,7 +1209,8 @@ MANIFEST = dict(
           "c01_parse_u64_spec; c01_init_from_file (source/file.c against a simulated file with any size / data / short-read "
           "schedule: valid result, failure => cleaned-up buffer, success => NUL terminator inside the capacity); c01_tolower_table / "
           "c01_hex_table over the two tables, and the bridge theorems c01_gen_nospec_mask, c01_gen_predicates, c01_gen_guards, "
-          "c01_gen_checked_arith (model function = function re-translated from the C source by gen/cfun.py on every run). "
+          "c01_gen_checked_arith, c01_gen_valid (model function = function re-translated from the C source by gen/cfun.py on every run) and "
+          "c01_is_valid_all (aws_byte_buf_is_valid / aws_byte_cursor_is_valid as written hold for every buffer and cursor after every history). "
           "Nothing is left as an unproved statement. Tied to /repo by a differential run of the compiled "
           "model against byte_buf.c rebuilt from the working tree (ASan/UBSan and DEBUG_BUILD flavours, canary-guarded arrays, "
           "release-time zero inspection, forged-header stream, every ordered pair of a 58-op small-scope alphabet) plus a "
